@@ -250,6 +250,19 @@ func histories(r *vk.Run, prop string) {
 			completed++
 		}
 	}
+	// liveness of the sensors: what each oracle judges must have occurred
+	need := map[string][]string{
+		"C01": {"l3_paths_removed_or_replaced_by_flush", "l3_both_modified_paths", "l3_both_modified_conflict_listed"},
+		"C02": {"l3_alpha_objects_compared", "l3_paths_removed_or_replaced_by_flush"},
+		"C03": {"l3_untracked_objects_checked", "l3_rounds_with_parent_attacked"},
+		"C04": {"l3_quiescent_flush_pairs", "l3_fixpoint_reconciliations", "l3_convergence_paths_compared"},
+	}
+	for _, k := range need[prop] {
+		if r.Counter(k) == 0 {
+			fmt.Printf("l3: sensor %s never fired\n", k)
+			r.Inconclusive("l3-sensor-dead:" + k)
+		}
+	}
 	r.Note("l3_wall_s", time.Since(began).Seconds())
 	r.Count("l3_histories", int64(n))
 	r.Count("l3_histories_completed", int64(completed))
